@@ -30,6 +30,7 @@ type World struct {
 
 	sums    map[*ssa.Function]*Summary
 	prologueCheck func(*ssa.Function) (bool, string)
+	raiseBusy     map[*ssa.Function]bool
 	flowMem map[flowKey]*FlowResult
 }
 
